@@ -143,6 +143,22 @@ def render(prog):
     return ['%d %s' % (ln['n'], rline(ln)) for ln in prog['lines']]
 
 
+def direct_line(rng):
+    """A direct line (structured statements) for the Interp.tla fragment: typically raises an error."""
+    pool = [
+        lambda: {'op': 'ERROR', 'e': C(rng.choice([5, 6, 11, 53, 200]))},
+        lambda: {'op': 'LET', 'v': rng.choice(IVARS), 'e': B('+', C(32767), V(rng.choice(ALLVARS)))},
+        lambda: {'op': 'LET', 'v': rng.choice(SVARS), 'e': C(rng.choice([7, -1, 3]))},
+        lambda: {'op': 'PRINT', 'e': V(rng.choice(ALLVARS))},
+        lambda: {'op': 'PRINT', 'e': C(rng.choice([41, 42]))},
+    ]
+    n = rng.randint(1, 3)
+    stmts = [rng.choice(pool)() for _ in range(n)]
+    if rng.random() < 0.7:
+        stmts.insert(rng.randint(0, len(stmts) - 1) if len(stmts) > 1 else 0, pool[0]())
+    return stmts
+
+
 class Gen(object):
     """Random structured programs inside the Interp.tla fragment."""
 
@@ -397,6 +413,8 @@ class Gen(object):
             for f in self.r.sample(['FNA', 'FNB', 'FNK%', 'FNR'], self.r.randint(1, 4)):
                 np_ = self.r.randint(0, 2)
                 ps = self.r.sample(ALLVARS, np_)
+                if np_ == 2 and self.r.random() < 0.2:
+                    ps = [ps[0], ps[0]]           # the same variable twice in the parameter list
                 known = dict(self.fnsig)
                 if f == 'FNR' and self.r.random() < 0.5:
                     known[f] = np_               # a function that calls itself
@@ -531,12 +549,21 @@ class Runner(object):
 
     def run(self, pi, varnames, schedule=None, budget=600, on_boundary=None):
         """RUN the loaded program. schedule: {boundary index (1-based): [trap ids]}. Returns the event list."""
+        return [{'a': 'run', 'pi': pi}] + self._exec('RUN', varnames, schedule, budget, on_boundary, direct=False)
+
+    def run_direct(self, stmts, varnames, schedule=None, budget=300):
+        """Execute a direct line (structured statements `stmts`) in the session as the last RUN left it."""
+        text = ':'.join(rstmt(dict(st)) for st in stmts)
+        for st in stmts:
+            st['col'] = True
+        return [{'a': 'direct', 'stmts': stmts}] + self._exec(text, varnames, schedule, budget, None, direct=True)
+
+    def _exec(self, command, varnames, schedule, budget, on_boundary, direct):
         sess = self.sess
-        events = [{'a': 'run', 'pi': pi}]
+        events = []
         state = {'n': 0, 'mark': 0}
         sess.take()
         sess.autocls = False
-        interp = sess.impl.interpreter
         program = sess.impl.program
         schedule = schedule or {}
 
@@ -549,35 +576,39 @@ class Runner(object):
                 vs.append(v)
             return vs
 
-        def outnums(raw):
-            raw = _MSG_RE.sub(b'', raw)
-            raw = re.sub(br'Break(?: in \d+)?', b'', raw)
-            return [int(x) for x in re.findall(br'-?\d+', raw)]
-
         def hook(it):
             if not it.run_mode:
-                return
+                if not direct:
+                    return
+                # the end of the direct line is not a statement boundary of interest (the interpreter passes it once
+                # more after END / when the line is finished)
+                cs = it.get_codestream()
+                here = cs.tell()
+                end = cs.seek(0, 2)
+                cs.seek(here)
+                if here >= end:
+                    return
             state['n'] += 1
             raw = sess.out.getvalue()
             delta = raw[state['mark']:]
             state['mark'] = len(raw)
             pos = it.get_codestream().tell()
             occ = list(schedule.get(state['n'], []))
-            events.append({'a': 'b', 'line': program.get_line_number(pos), 'vars': getvars(),
-                           'out': outnums(delta), 'occ': occ})
+            events.append({'a': 'b', 'line': program.get_line_number(pos) if it.run_mode else 65535, 'vars': getvars(),
+                           'out': _outnums(delta), 'occ': occ})
             for k in occ:
                 self.inject(k)
             if on_boundary:
                 on_boundary(state['n'], it)
         sess.hooks.append(hook)
         try:
-            r = sess.ex('RUN', budget=budget)
+            r = sess.ex(command, budget=budget)
         finally:
             sess.hooks.remove(hook)
             sess.autocls = True
         raw = r[2] if len(r) > 2 else b''
         delta = raw[state['mark']:]
-        end = {'a': 'end', 'vars': getvars(), 'out': outnums(delta), 'code': 0, 'line': 0}
+        end = {'a': 'end', 'vars': getvars(), 'out': _outnums(delta), 'code': 0, 'line': 0}
         if r[0] == 'cut':
             end['k'] = 'cut'
         elif r[0] == 'internal':
